@@ -54,6 +54,24 @@ def runDist (ks : List Kind) (ws : List Nat) (sched : List Nat) (leftover : Opti
   let var := match s.var with | none => "N" | some i => fmtId i
   s!"{",".intercalate labels} ; {",".intercalate (s.calls.reverse.map fmtCall)} ; uid={",".intercalate wids} var={var} ; {",".intercalate outs} ; lock={lock}"
 
+def traceDistN (cfg : DistN.Cfg) : DistN.State → List Nat → List String → DistN.State × List String
+  | s, [], acc => (s, acc.reverse)
+  | s, t :: rest, acc => traceDistN cfg (DistN.step cfg s t) rest (s!"{t}:{DistN.label cfg s t}" :: acc)
+
+/-- names are given per worker; the printed variable / lock are those of worker 0 -/
+def runDistN (ks : List Kind) (ws vn ln : List Nat) (sched : List Nat) : String :=
+  let cfg : DistN.Cfg := { kind := kindOf ks, worker := fun t => ws.getD t 0,
+                           varName := fun w => vn.getD w 0, lockName := fun w => ln.getD w 0 }
+  let (s, labels) := traceDistN cfg DistN.init sched []
+  let outs := (List.range ks.length).map (fun t => fmtDistOutcome (s.pc t))
+  let nw := (ws.foldl max 0) + 1
+  let wids := (List.range nw).map (fun w => fmtId (s.wid w))
+  let holders := (List.range nw).filterMap (fun w => s.locks (cfg.lockName w))
+  let lock := match holders with | [] => "free" | h :: _ => toString h
+  let vals := (List.range nw).filterMap (fun w => s.vars (cfg.varName w))
+  let var := match vals.reverse with | [] => "N" | i :: _ => fmtId i
+  s!"{",".intercalate labels} ; {",".intercalate (s.calls.reverse.map fmtCall)} ; uid={",".intercalate wids} var={var} ; {",".intercalate outs} ; lock={lock}"
+
 def parseBytes (s : String) : Bytes := s.toList.map Char.toNat
 
 def fmtBytes (b : Bytes) : String := String.ofList (b.map Char.ofNat)
@@ -95,6 +113,13 @@ def run (args : List String) : Option String :=
     let ks ← parseList? parseKind? ks
     let sched ← parseList? parseNat? sched
     pure (runLocal fixed ks sched true)
+  | ["distn", ks, ws, vn, ln, sched] => do
+    let ks ← parseList? parseKind? ks
+    let ws ← parseList? parseNat? ws
+    let vn ← parseList? parseNat? vn
+    let ln ← parseList? parseNat? ln
+    let sched ← parseList? parseNat? sched
+    pure (runDistN ks ws vn ln sched)
   | ["dist", ks, ws, sched, left] => do
     let ks ← parseList? parseKind? ks
     let ws ← parseList? parseNat? ws
